@@ -247,6 +247,7 @@ static void update_statistics_float(carquet_page_writer_t* writer,
                                      const float* values, int64_t count) {
     for (int64_t i = 0; i < count; i++) {
         float v = values[i];
+        if (v != v) continue;  /* NaN is never a bound */
         if (!writer->has_min_max) {
             memcpy(writer->min_value, &v, sizeof(v));
             memcpy(writer->max_value, &v, sizeof(v));
@@ -266,6 +267,7 @@ static void update_statistics_double(carquet_page_writer_t* writer,
                                       const double* values, int64_t count) {
     for (int64_t i = 0; i < count; i++) {
         double v = values[i];
+        if (v != v) continue;  /* NaN is never a bound */
         if (!writer->has_min_max) {
             memcpy(writer->min_value, &v, sizeof(v));
             memcpy(writer->max_value, &v, sizeof(v));
